@@ -5,7 +5,9 @@ repo=${1:-/repo}
 log=$(mktemp /tmp/xvc-verif-baseline.XXXXXX)
 # the tests leave their scratch repositories (xvc-repo-*, ~40 MB each) behind: give them a private temp dir
 tmpd=$(mktemp -d /tmp/xvc-verif-baseline-tmp.XXXXXX)
+rm -f "$repo/target/nextest/pb/junit.xml"     # never read a stale report
 (cd "$repo" && TMPDIR="$tmpd" cargo nextest run --workspace --no-fail-fast --tool-config-file pb:/w/lib/nextest.toml --profile pb --test-threads 8 --offline --ignore-rust-version > "$log" 2>&1)
+[ -f "$repo/target/nextest/pb/junit.xml" ] || { echo "no test report: the build failed"; tail -30 "$log"; rm -f "$log"; rm -rf "$tmpd"; exit 2; }
 python3 - "$repo/target/nextest/pb/junit.xml" <<'PY'
 import json, sys
 import xml.etree.ElementTree as ET
